@@ -1,0 +1,29 @@
+//go:build verif
+
+// Contracts for the deductive verification in /verif (govc). Comment-only:
+// with the build tag off this file is not compiled, with it on it declares nothing.
+package proxy
+
+// ---------------------------------------------------------------------------
+// C20: what the live-reload proxy may do to a response.
+// Ghost: in(r.Body) = the bytes still to be read from the body; headers(r.Header) = canonical key -> first value.
+//
+// untouched(r): the response leaves exactly as it came - same body stream, nothing read from it, same length field,
+// same headers.
+//@ spec untouched(r) = r.Body == old(r.Body) && in(r.Body) == old(in(r.Body)) && r.ContentLength == old(r.ContentLength) && headers(r.Header) == old(headers(r.Header))
+// the encodings the proxy can decode and re-encode
+//@ spec knownEncoding(e) = e == "" || e == "gzip" || e == "br"
+
+//@ func (*Handler) modifyResponse [C20]
+//@   requires h != nil && h.log != nil && r != nil && r.Request != nil && r.Request.URL != nil && r.Header != nil && r.Body != nil
+//@   modifies *
+// responses marked to be skipped (HTMX), non-HTML responses and responses in an encoding the proxy does not
+// understand pass through byte-identical
+//@   ensures implies(old(header(r.Header, "templ-skip-modify")) == "true", result == nil && untouched(r))
+//@   ensures implies(!isPrefix("text/html", old(header(r.Header, "Content-Type"))), result == nil && untouched(r))
+//@   ensures implies(!knownEncoding(old(header(r.Header, "Content-Encoding"))), untouched(r))
+// a rewritten response: the length field and the Content-Length header are the number of bytes of the new body,
+// the Content-Encoding header is the one the body was re-encoded under
+//@   ensures implies(result == nil && r.Body != old(r.Body), r.ContentLength == len(in(r.Body)) && header(r.Header, "Content-Length") == itoa(len(in(r.Body))) && header(r.Header, "Content-Encoding") == old(header(r.Header, "Content-Encoding")))
+// an error leaves the headers alone
+//@   ensures implies(result != nil, headers(r.Header) == old(headers(r.Header)) && r.ContentLength == old(r.ContentLength))
